@@ -337,7 +337,8 @@ def layer_python(ctx, n):
             pre = ' tal:define="zz9 (lambda v, n=1, lst=(): (v, n, lst))(0); zz8 sorted([2, 1], key=lambda s: s)"'
         src = "<p%s tal:content=\"structure %s\">x</p>" % (pre, exprs.encode_expr_for_markup(rng, e, '"').replace('\n', ' '))
         try:
-            out = PageTemplate(src)(**ns)
+            from vlib import routes
+            out = routes.make(PageTemplate, src, 6, ctx)(**ns)
             got_s = 'VALUE ' + out[3:-4]
         except Exception as ex:
             got_s = 'RAISED ' + type(ex).__name__
@@ -538,7 +539,8 @@ def layer_paths(ctx, n):
             else:
                 expect = want
         try:
-            got = PageTemplate(src)(d=tree, ident=ident)
+            from vlib import routes
+            got = routes.make(PageTemplate, src, 6, ctx)(d=tree, ident=ident)
         except Exception as ex:
             got = ('RAISED', type(ex).__mro__[1].__name__ if hasattr(ex, '_original__str__') else type(ex).__name__,
                    getattr(ex, 'args', None) if isinstance(ex, PathAttrError) else None)
